@@ -6,6 +6,7 @@ package vg
 import (
 	"fmt"
 	"math"
+	"os"
 	"sort"
 	"strconv"
 	"strings"
@@ -1557,6 +1558,11 @@ func (g *Gen) Container(k string, d int) *V {
 var collStr [][]string // groups of strings with equal hash index modulo 101 and modulo 203 (initial and first grown capacity)
 
 func init() {
+	// a process that probes the very first library calls of its life (harness/c02/cold.go) must not have
+	// touched util/hash before: it sets this variable and uses no generator, only ParseLine / ToGo / FromGo
+	if os.Getenv("VERIF_VG_NO_HASH_SEARCH") == "1" {
+		return
+	}
 	type key struct{ a, b uint }
 	groups := map[key][]string{}
 	for i := 0; i < 300000; i++ {
